@@ -11,7 +11,7 @@ import (
 func init() { register("C15", runC15) }
 
 func runC15(c *Check, tier string) {
-	c.Decides = "the minimal-mode hit sits under the same hit conditions as mode all and propagates the stored output hash; in minimal mode the executing method is reachable only after the dependency-output loading returned nil; the dependency-loading loop visits every direct dependency (no early return of a possibly-nil value) and re-runs a dependency only after loading that dependency's own dependencies; dependencies reached through aliases are not dropped."
+	c.Decides = "the minimal-mode hit sits under the same hit conditions as mode all and propagates the stored output hash; in minimal mode the executing method is reachable only after the dependency-output loading returned nil; the dependency-loading loop visits every direct dependency (no early return of a possibly-nil value) and re-runs a dependency only after loading that dependency's own dependencies; dependencies reached through aliases are not dropped; a failed lookup/restore of a dependency always leads to the recursive load and the re-run before the loader returns; the resolver keeps every dependency."
 	c.NotDec = "lock-step equivalence of two builds, the bytes that are materialised, cache faults at run time."
 	g := analyseGate(c, "R15a")
 	ruleR15a(c, g)
